@@ -37,6 +37,19 @@ pub fn clear(fd: i32) {
 pub fn hits() -> u64 { HITS.try_with(|h| h.get()).unwrap_or(0) }
 
 thread_local! {
+  /// descriptors whose read(2) calls are counted: (fd, calls seen, fail from call number (u32::MAX = never), errno, fired)
+  static WATCH: Cell<[(i32, u32, u32, i32, bool); SLOTS]> = const { Cell::new([(-1, 0, u32::MAX, 0, false); SLOTS]) };
+}
+/// count the read(2) calls this thread makes on `fd` from now on
+pub fn watch_reads(fd: i32) { let _ = WATCH.try_with(|c| { let mut a = c.get(); if let Some(i) = a.iter().position(|e| e.0 == fd).or_else(|| a.iter().position(|e| e.0 < 0)) { a[i] = (fd, 0, u32::MAX, 0, false); } c.set(a); }); }
+pub fn unwatch_reads(fd: i32) { let _ = WATCH.try_with(|c| { let mut a = c.get(); for e in a.iter_mut() { if e.0 == fd { *e = (-1, 0, u32::MAX, 0, false); } } c.set(a); }); }
+pub fn reads_seen(fd: i32) -> u32 { WATCH.try_with(|c| c.get().iter().find(|e| e.0 == fd).map(|e| e.1).unwrap_or(0)).unwrap_or(0) }
+/// the read(2) calls on the watched `fd` numbered `n`, `n`+1, ... (from 0) fail with `errno`
+pub fn fail_reads_from_call(fd: i32, n: u32, errno: i32) { let _ = WATCH.try_with(|c| { let mut a = c.get(); for e in a.iter_mut() { if e.0 == fd { e.2 = n; e.3 = errno; } } c.set(a); }); }
+/// has a call-numbered failure on `fd` happened yet?
+pub fn watch_fired(fd: i32) -> bool { WATCH.try_with(|c| c.get().iter().any(|e| e.0 == fd && e.4)).unwrap_or(false) }
+
+thread_local! {
   /// (mode, parameter, bytes handed out so far, calls so far, faults applied) — see `arm_file_reads`
   static FILE_PLAN: Cell<(u8, u32, u64, u64, u64)> = const { Cell::new((0, 0, 0, 0, 0)) };
 }
@@ -71,6 +84,16 @@ pub unsafe extern "C" fn read(fd: libc::c_int, buf: *mut libc::c_void, count: li
   }
   let mut eof_errno = 0;
   if fd >= 0 {
+    if let Ok(mut w) = WATCH.try_with(|c| c.get()) {
+      if let Some(i) = w.iter().position(|e| e.0 == fd) {
+        let call = w[i].1; w[i].1 = call.saturating_add(1);
+        let fail = call >= w[i].2;
+        if fail { w[i].4 = true; }
+        let errno = w[i].3;
+        let _ = WATCH.try_with(|c| c.set(w));
+        if fail { let _ = HITS.try_with(|h| h.set(h.get() + 1)); *libc::__errno_location() = errno; return -1; }
+      }
+    }
     if let Ok(a) = FAULTS.try_with(|c| c.get()) {
       for s in a.iter() {
         if s.0 == fd {
